@@ -303,7 +303,7 @@ func (fr *Frame) libModel(fn *ssa.Function, full string, args []Val, st *State, 
 			c.declareFun("rat.den", []Sort{SReal}, SInt)
 			x := rv(0)
 			nu, de := app(SInt, "rat.num", x), app(SInt, "rat.den", x)
-			c.assumeG(g, mk(SBool, fmt.Sprintf("(and (>= %s 1) (= (to_real %s) (* %s (to_real %s))))", de.S, nu.S, x.S, de.S)))
+			c.assumeG(g, mk(SBool, fmt.Sprintf("(and (>= %s 1) (= (to_real %s) (* %s (to_real %s))) (= (div %s %s) (to_int %s)))", de.S, nu.S, x.S, de.S, nu.S, de.S, x.S)))
 			if m == "Num" {
 				return done(tv(newBig(nu, "Rat.Num")))
 			}
@@ -335,6 +335,9 @@ func (fr *Frame) libModel(fn *ssa.Function, full string, args []Val, st *State, 
 			return done(tv(c.fresh("trylock", SBool)))
 		}
 		return done(Val{})
+	case strings.HasPrefix(full, "(*sync.Map)."):
+		// the mempool map is not part of the modelled state: no heap effect, unconstrained results
+		return done(c.freshVal(st, g, resType, "syncmap"))
 	case strings.HasPrefix(full, "sync/atomic.Load"):
 		loc := c.derefLoc(args[0], fn.Signature.Params().At(0).Type())
 		v := c.define("atomic.load", c.load(st, loc))
@@ -405,6 +408,10 @@ func (fr *Frame) libModel(fn *ssa.Function, full string, args []Val, st *State, 
 		r := app(SBool, "bytes.eq", aa, mk(SInt, "(s.off "+a.S+")"), mk(SInt, "(s.len "+a.S+")"), ba, mk(SInt, "(s.off "+b.S+")"), mk(SInt, "(s.len "+b.S+")"))
 		c.assumeG(g, mk(SBool, fmt.Sprintf("(=> %s (= (s.len %s) (s.len %s)))", r.S, a.S, b.S)))
 		return done(tv(r))
+	case full == "(time.Time).IsZero":
+		ts := c.sortOf(fn.Signature.Recv().Type())
+		c.declareFun("time.iszero", []Sort{ts}, SBool)
+		return done(tv(app(SBool, "time.iszero", T(0))))
 	case full == "time.Now":
 		return done(c.freshVal(st, g, resType, "now"))
 	case full == "math.Pow":
@@ -448,6 +455,8 @@ func isPureLibFunc(fn *ssa.Function) bool {
 		return !isPtr
 	case "fmt":
 		return strings.HasPrefix(fn.Name(), "Sprint") || fn.Name() == "Errorf"
+	case "encoding/json", "github.com/tendermint/tendermint/libs/json":
+		return fn.Name() == "Marshal" || fn.Name() == "MarshalIndent"
 	case "bytes":
 		switch fn.Name() {
 		case "Equal", "Compare", "HasPrefix", "HasSuffix", "Contains", "Index", "IndexByte", "TrimLeft", "TrimRight", "TrimSpace", "Count":
